@@ -2050,12 +2050,21 @@ class VM:
                     pos = 0
                     capture_count = regex_internal._capture_count
 
-                    while pos <= len(s):
+                    # A separator is looked for at every position before the end of
+                    # the subject; one found at the very end does not split
+                    while pos < len(s):
                         # Create fresh regex VM for each search to avoid lastIndex issues
                         vm_regex = regex_internal._create_vm()
                         result = vm_regex.search(s, pos)
-                        if result is None:
+                        if result is None or result.index >= len(s):
                             break
+
+                        match_len = len(result[0]) if result[0] else 0
+                        if result.index + match_len == last_end:
+                            # Empty separator where the previous one ended: no split
+                            # here, look further right
+                            pos = result.index + 1
+                            continue
 
                         # Add the part before this match
                         parts.append(s[last_end : result.index])
@@ -2068,13 +2077,14 @@ class VM:
                             )
 
                         # Move past the match
-                        match_len = len(result[0]) if result[0] else 0
-                        last_end = result.index + match_len
-                        # Advance position (at least by 1 to avoid infinite loop on zero-width)
-                        pos = last_end if match_len > 0 else result.index + 1
+                        last_end = pos = result.index + match_len
 
-                    # Add remainder after last match
-                    parts.append(s[last_end:])
+                    if len(s) == 0 and regex_internal._create_vm().match(s, 0):
+                        # An empty subject that the separator matches splits into nothing
+                        parts = []
+                    else:
+                        # Add remainder after last match
+                        parts.append(s[last_end:])
                 except RegexTimeoutError:
                     raise TimeLimitError("Regex execution timeout")
             elif to_string(sep) == "":
